@@ -11,6 +11,9 @@ def load():
     if _GROUPS is None:
         _GROUPS = {}
         base = os.path.join(os.path.dirname(os.path.dirname(os.path.abspath(__file__))), 'contracts')
+        import sys
+        if base not in sys.path:
+            sys.path.insert(0, base)
         for path in sorted(glob.glob(os.path.join(base, 'groups_*.py'))):
             name = 'pyvc_groups_' + os.path.splitext(os.path.basename(path))[0]
             spec = importlib.util.spec_from_file_location(name, path)
